@@ -140,9 +140,21 @@ def parseProgram (j : Json) : Except String Program := do
     input := (getNat? gj "input").getD 0, output := (getNat? gj "output").getD 0 }
   let cfgOf : Node → NodeCfg := fun n => (cfgs[n]?.map (·.1)).getD {}
   let bsOf : Node → BodySpec := fun n => (cfgs[n]?.map (·.2)).getD {}
+  -- collaborator suspension plan: spec.cb = {"nstart": {"3": 1}, "ncomplete": {...}, "save": {...}, "pstart": k, "pcomplete": k}
+  let cbj := (sj.getObjVal? "cb").toOption.getD (Json.mkObj [])
+  let perNode (key : String) (n : Node) : Nat :=
+    match cbj.getObjVal? key with
+    | .ok o => (getNat? o (toString n)).getD 0
+    | _ => 0
+  let cb : Cb → Node → Nat := fun k n => match k with
+    | .nstart => perNode "nstart" n
+    | .ncomplete => perNode "ncomplete" n
+    | .save => perNode "save" n
+    | .pstart => (getNat? cbj "pstart").getD 0
+    | .pcomplete => (getNat? cbj "pcomplete").getD 0
   return { g := g, cfg := cfgOf, body := fun n kw inv att => bodyOf (cfgOf n) (bsOf n) n kw inv att,
            dflt := fun n kw => .str (prov ((cfgOf n).name ++ ".default") kw), inputKw := ik,
-           poolsOk := !(getBoolD j "pools_missing") }
+           poolsOk := !(getBoolD j "pools_missing"), cbYield := cb }
 
 /-! ### lock-step -/
 
